@@ -246,6 +246,7 @@ func init() {
 			return VErr(errCode(err))
 		}
 		out := append([]byte{}, s.UpdateData()...)
+		_ = s.String() // C05: a decoded object can be printed without panicking (a panic turns the reply into [2])
 		return VOk(VL(VB(out), scteView(s)))
 	})
 	register("scte.build", func(a []Val) Val {
